@@ -47,6 +47,9 @@ def call(ctx, fr, f, args, kwargs):
     if isinstance(f, types.FunctionType):
         if f not in ctx.stubs and pure_string_function(f):
             flat = list(args) + list(kwargs.values())
+            # symbolic flags (is_case, is_re) take part in the tabulation as two-valued atoms
+            flat = [SAtom(ITE(a.t, ATOMS.intern(True), ATOMS.intern(False)), (ATOMS.intern(True), ATOMS.intern(False)))
+                    if isinstance(a, SBool) else a for a in flat]
             if any(isinstance(a, SAtom) for a in flat) and all(
                     isinstance(a, SAtom) or not o.is_symbolic_value(a) for a in flat):
                 # pure function of label strings: the REAL function is evaluated on every candidate
